@@ -8,11 +8,13 @@ package main
 
 import (
 	"bufio"
+	"bytes"
 	"encoding/hex"
 	"encoding/json"
 	"fmt"
 	"io"
 	"log/slog"
+	"math/bits"
 	"os"
 
 	"github.com/ollama/ollama/fs/ggml"
@@ -88,6 +90,86 @@ func loadAccessors(f *ggml.GGML) map[string]any {
 	return out
 }
 
+// the two shapes in which server code hands raw bytes to ggml.DetectContentType
+func callerShape(data []byte, shape string) []byte {
+	if shape == "four" {
+		// server/create.go detectModelTypeFromFiles: buf := make([]byte, 4); f.Read(buf)
+		buf := make([]byte, 4)
+		copy(buf, data)
+		return buf
+	}
+	// server/model.go detectContentType: io.Copy(&b, io.NewSectionReader(blob, 0, 512)); b.Bytes()
+	var b bytes.Buffer
+	if _, err := io.Copy(&b, io.NewSectionReader(bytes.NewReader(data), 0, 512)); err != nil {
+		panic("harness: " + err.Error())
+	}
+	return b.Bytes()
+}
+
+var ctCode = map[string]int{"": 0, "ggml": 1, "ggmf": 2, "ggjt": 3, "ggla": 4, "gguf": 5}
+
+func polyHash(h uint64, x int) uint64 {
+	hi, lo := bits.Mul64(h, 1000003)
+	lo, c := bits.Add64(lo, uint64(x)+1, 0)
+	_, rem := bits.Div64(hi+c, lo, 2305843009213693951)
+	return rem
+}
+
+// entryAll calls every exported fs/ggml entry point that takes raw bytes on EVERY byte string of length 0..maxlen over
+// the alphabet (enumerated by length, then lexicographically by alphabet index) and reports panics and result digests.
+func entryAll(alpha []byte, maxlen int, decodeToo bool) map[string]any {
+	type pan struct {
+		Fn, Input, Msg string
+	}
+	var pans []pan
+	npan := 0
+	n := 0
+	hd, hf, hdec := uint64(7), uint64(7), uint64(7)
+	try := func(fn string, data []byte, f func() int) int {
+		defer func() {
+			if r := recover(); r != nil {
+				npan++
+				if len(pans) < 6 {
+					pans = append(pans, pan{fn, hex.EncodeToString(data), fmt.Sprint(r)})
+				}
+			}
+		}()
+		return f()
+	}
+	var rec func(cur []byte, left int)
+	rec = func(cur []byte, left int) {
+		if left == 0 {
+			data := append([]byte{}, cur...)
+			n++
+			hd = polyHash(hd, try("DetectContentType(buffer)", data, func() int { return ctCode[ggml.DetectContentType(callerShape(data, "buffer"))] }))
+			hf = polyHash(hf, try("DetectContentType(4-byte buf)", data, func() int { return ctCode[ggml.DetectContentType(callerShape(data, "four"))] }))
+			try("ParseFileType", data, func() int { _, _ = ggml.ParseFileType(string(data)); return 0 })
+			if decodeToo {
+				hdec = polyHash(hdec, try("Decode", data, func() int {
+					_, _, err := ggml.Decode(bytes.NewReader(data), 0)
+					switch ggdump.ErrClass(err) {
+					case "":
+						return 0
+					case "eof":
+						return 1
+					case "ueof":
+						return 2
+					}
+					return 3
+				}))
+			}
+			return
+		}
+		for _, a := range alpha {
+			rec(append(cur, a), left-1)
+		}
+	}
+	for l := 0; l <= maxlen; l++ {
+		rec(nil, l)
+	}
+	return map[string]any{"n": n, "npanics": npan, "panics": pans, "detect_hash": fmt.Sprint(hd), "detect4_hash": fmt.Sprint(hf), "decode_hash": fmt.Sprint(hdec)}
+}
+
 func main() {
 	slog.SetDefault(slog.New(slog.NewTextHandler(io.Discard, nil)))
 	sc := bufio.NewScanner(os.Stdin)
@@ -123,6 +205,20 @@ func main() {
 					out["acc2"] = loadAccessors(d.File)
 				}
 				return out
+			case "detect":
+				b, err := hex.DecodeString(c["bytes"].(string))
+				if err != nil {
+					panic("harness: bad hex")
+				}
+				shape, _ := c["shape"].(string)
+				return map[string]any{"ct": ctCode[ggml.DetectContentType(callerShape(b, shape))]}
+			case "entry_all":
+				alpha, err := hex.DecodeString(c["alpha"].(string))
+				if err != nil {
+					panic("harness: bad hex")
+				}
+				dec, _ := c["decode"].(bool)
+				return entryAll(alpha, hx.Int(c["maxlen"]), dec)
 			}
 			return map[string]any{"harness_error": "unknown op"}
 		})
